@@ -31,18 +31,33 @@ CHECK = {'level': 'exploration',
          'Watchdog for every case of every class: a request that does not end is a VIOLATION when three goroutine dumps (>= 300 ms and >= 40 process heartbeats apart, '
          'after >= 4 s and >= 400 heartbeats without any event) show the same goroutines of the case\'s cluster waiting for a mutex inside pkg/p2p below a MessageProtocol '
          'method, or an outstanding requester parked in the select of sendRequestMessage; or, with nothing recognisable parked, when calls are outstanding and no event '
-         'happened for 30 s (10 s after the first such hit) while the process ran for >= 2000 heartbeats (callers\' stacks reported).',
+         'happened for 30 s (10 s after the first such hit) while the process ran for >= 2000 heartbeats (callers\' stacks reported). '
+         'Separate generated class "broadcast" (TestBroadcast, 40 cases quick / 150 per thorough shard / 50 per race shard; directed forms TestRegressBroadcast in every tier): the second entry point of the layer '
+         'that issues requests for a caller, Connection.Broadcast = MessageProtocol.Broadcast (one request with the full timeout and retry budget to every connected peer, first error returned; the only other public '
+         'entry point is RequestFrom - Publish is gossip, ApplyPenalty/BanPeer do not go through request()). Private star-shaped cluster per case: a hub connected to 1-6 peers (not connected among themselves), timeout 20-60 ms; '
+         'each peer has a generated character towards Broadcast requests: answers in time / after the timeout in its first 1-3 attempts and in time afterwards / after the timeout in every attempt / never while the call runs '
+         '(black-hole handler: reads the request, returns only after the Broadcast call returned) / error reply; a peer may stop (Connection.Stop) or be disconnected by the hub while the calls run; the number of peers to which '
+         'every request can only fail is drawn first (0 / 1 / 2 / 3 / 4, label broadcast-case:failing-peers=N); 1-4 concurrent Broadcast calls of the hub among 0-60 ordinary RequestFrom calls hub <-> peers (own-token oracle, 10 % '
+         'error replies, 10 % first attempt late, 8 % cancelled); Broadcast contexts cancelled before the call (10 %), during the call (20 %) or never. Oracle there: every Broadcast call returns - a call that does not is a '
+         'VIOLATION when three goroutine dumps (same spacing and silence as above) show its caller parked inside MessageProtocol.Broadcast itself while no goroutine started by that call is inside request() any more '
+         '(blocked:broadcast-does-not-return; other shapes fall under the mutex / select / 30 s rules); after all calls returned no goroutine started by a Broadcast call stays parked in Broadcast code (three dumps; goroutines still '
+         'inside a per-peer request are waited for and counted); handler runs per (Broadcast call, peer) <= retries+1, attempts on the caller goroutine <= peers x (retries+1); no reply dropped as unknown while its request is outstanding; '
+         'pending tables empty; then a fresh request hub -> undisturbed peer and back (1 s timeout) must be served. What Broadcast returns (nil / timeout / context error / dial error) is counted, not asserted; no elapsed time is asserted. '
+         'Non-trivial there = a Broadcast that started with >= 2 connected peers ended with an error or had a per-peer attempt time out while another call of the case was in flight.',
  'level_text': 'Generated concurrent request/response workloads between real libp2p hosts with hook-ordered races; every call must return its own '
                'token or an error - also when several concurrent calls are identical in procedure and payload (same request to 2-3 peers / repeated to one peer within one second: '
                'the response must come from the addressed peer for the call\'s own message ID) -, hook-ordered replies must not be dropped, no reply dropped as unknown while its request is '
                'outstanding, handler runs <= retries+1 per call, no pending entry after quiescence, no '
                'goroutine parked in onResponse (goroutine dump), no goroutine of the layer waiting for a mutex or parked in its select beyond the timeout '
-               '(three goroutine dumps), a fresh request is served after a late-response storm. Schedules are steered at three points and at the unknown-ID '
+               '(three goroutine dumps), a fresh request is served after a late-response storm; every Connection.Broadcast call (hub with 1-6 peers of which a generated '
+               'subset is late, silent, answers an error, stops or is disconnected; contexts cancelled before/during the call; concurrent Broadcasts mixed with RequestFrom traffic) returns, leaves no goroutine '
+               'parked in its own code and no pending entry, and fresh requests are served afterwards. Schedules are steered at three points and at the unknown-ID '
                'log line, not enumerated; the Go scheduler is not owned.',
  'level_note': 'Blocked-forever is reported only on positive evidence from goroutine dumps taken while nothing moved for 4 s and the process demonstrably ran '
                '(heartbeats): onResponse parked in a channel send, layer goroutines waiting for a mutex, a requester parked in its select although timer and '
                'context should have ended it, or - shape unknown - callers still inside RequestFrom after 30 s without any event and >= 2000 heartbeats. Only a '
-               'starved process (too few heartbeats) ends a case as inconclusive at the 120 s budget. No latency bound is asserted.',
+               'starved process (too few heartbeats) ends a case as inconclusive at the 120 s budget. No latency bound is asserted. A Broadcast that does not return is reported '
+               'when its caller is parked in MessageProtocol.Broadcast itself in three dumps and none of the goroutines it started is inside a per-peer request (a Broadcast that legitimately waits for running requests is never evidence).',
  'technique': 'property-based testing (rapid) of concurrent histories with schedule-point steering and invariant/correlation oracles',
  'assumptions': ['dropped replies are observed through the "unknown request ID" warning of onResponse (custom logger); if its text changes only the '
                  'lost-reply signal is lost', 'duplicates carry the same payload as the real reply (the layer cannot tell a forged reply with a valid ID apart)',
@@ -59,7 +74,11 @@ CHECK = {'level': 'exploration',
                  '(machine overloaded, gate cap) only loses sensitivity for defects that depend on it, nothing is asserted from it',
                  'the handler cannot tell identical requests of one requester to one host apart: latency/error flag are taken from those calls in arrival order, attribution of runs to calls goes '
                  'through message IDs (a message ID used by one request only); message IDs are not required to be unique - a shared ID is reported only as a note inside a violation',
-                 'liveness probe: a fresh fast request that fails 3 times (12 attempts of 1 s) counts only if no process heartbeat was late meanwhile'],
- 'quick': [{'pkg': 'c17', 'checks': 60, 'timeout': 1800, 'shrinktime': '6s', 'env': {'VERIF_C17_STORM': 40}}],
- 'thorough': [{'pkg': 'c17', 'checks': 800, 'shards': 12, 'timeout': 2400, 'gomaxprocs': 4, 'shrinktime': '6s', 'env': {'VERIF_C17_STORM': 200}},
-              {'pkg': 'c17', 'race': True, 'checks': 200, 'shards': 4, 'timeout': 2400, 'gomaxprocs': 4, 'shrinktime': '6s', 'env': {'VERIF_C17_STORM': 60}}]}
+                 'liveness probe: a fresh fast request that fails 3 times (12 attempts of 1 s) counts only if no process heartbeat was late meanwhile',
+                 'broadcast class: goroutines started by a Broadcast call are recognised by the "created by ...MessageProtocol.Broadcast in goroutine N" line of runtime.Stack (Go >= 1.21) with N = the goroutine that '
+                 'executed the call; an engine that starts them from a helper with another name is still covered by the caller-side rule (caller parked in Broadcast, nothing inside request()) and by the 30 s no-progress rule',
+                 'broadcast class: peers that can only fail are silent / late in every attempt / stopping; a stopping peer fails only from the moment it has stopped, so failing-peers=N is the planned number, not an observed one; '
+                 'the black-hole peers of the stalled-peer class cannot be Broadcast targets (Broadcast addresses connected peers only), the silent peers here are connected hosts whose handler does not return'],
+ 'quick': [{'pkg': 'c17', 'checks': 60, 'timeout': 1800, 'shrinktime': '6s', 'env': {'VERIF_C17_STORM': 40, 'VERIF_C17_BCAST': 40}}],
+ 'thorough': [{'pkg': 'c17', 'checks': 800, 'shards': 12, 'timeout': 2400, 'gomaxprocs': 4, 'shrinktime': '6s', 'env': {'VERIF_C17_STORM': 200, 'VERIF_C17_BCAST': 150}},
+              {'pkg': 'c17', 'race': True, 'checks': 200, 'shards': 4, 'timeout': 2400, 'gomaxprocs': 4, 'shrinktime': '6s', 'env': {'VERIF_C17_STORM': 60, 'VERIF_C17_BCAST': 50}}]}
